@@ -43,6 +43,10 @@ impl NotificationHandler<DidCloseTextDocument> for DidCloseTextDocumentHandler {
             .lock()
             .unwrap()
             .remove(&params.text_document.uri.to_file_path().unwrap());
+
+        // From now on the file on disk counts again
+        ctx.perform_codegen();
+        publish_diagnostics(ctx)?;
         Ok(())
     }
 }
@@ -53,7 +57,7 @@ fn register_document(ctx: &mut LspContext, uri: &Url, source: &str) {
     ctx.perform_codegen();
 }
 
-fn publish_diagnostics(ctx: &LspContext) -> MosResult<()> {
+fn publish_diagnostics(ctx: &mut LspContext) -> MosResult<()> {
     log::trace!("Publish diagnostics");
 
     let mut result: HashMap<String, Vec<Diagnostic>> =
@@ -69,7 +73,7 @@ fn publish_diagnostics(ctx: &LspContext) -> MosResult<()> {
             .collect_vec();
 
         // Publish errors (or no errors!) for every file
-        for filename in filenames {
+        for filename in &filenames {
             let diags = result.remove(filename.as_str()).unwrap_or_default();
             let params = PublishDiagnosticsParams::new(
                 Url::from_file_path(filename).unwrap(),
@@ -78,6 +82,20 @@ fn publish_diagnostics(ctx: &LspContext) -> MosResult<()> {
             );
             ctx.publish_notification::<PublishDiagnostics>(params)?;
         }
+
+        // A file that is no longer part of the project has no errors anymore
+        let gone = ctx
+            .published_files
+            .iter()
+            .filter(|f| !filenames.contains(f))
+            .cloned()
+            .collect_vec();
+        for filename in gone {
+            let params =
+                PublishDiagnosticsParams::new(Url::from_file_path(filename).unwrap(), vec![], None);
+            ctx.publish_notification::<PublishDiagnostics>(params)?;
+        }
+        ctx.published_files = filenames;
     }
     Ok(())
 }
